@@ -21,6 +21,7 @@ import flow
 import tmpl
 from facts import Terms, enum_switches, switch_info, show, calls_in, leaves
 import vcc
+import roles
 
 PRUNE = "simplicity::node::redeem::<impl simplicity::node::Node<simplicity::node::redeem::Redeem>>::prune_with_tracker"
 FINISH = dict(level="other",
@@ -223,7 +224,7 @@ def run(ctx, rep):
                                   "wrong side" % (who, f.name, cs.name), cs.where())
 
     # ---------------- prune decision ----------------
-    pc = [f for f in F.fns.values() if f.name == "prune_case" and "prune_with_tracker::Pruner" in (f.impl_self or "")]
+    pc = roles.methods(F, "prune_with_tracker::Pruner", "prune_case")
     if len(pc) != 1:
         rep.anchor("C08.decision", "Pruner::prune_case")
     else:
@@ -334,7 +335,10 @@ def run(ctx, rep):
             if len(cvs) == 2:
                 ga0 = " ".join(cvs[0].f.get("args", []))
                 ga1 = " ".join(cvs[1].f.get("args", []))
-                if "Pruner" in ga0 and "Finalizer" in ga1 and c.dominates(cvs[0].bb, cvs[1].bb):
+                rl = roles.converters(F)
+                if roles.base(cvs[0].f.get("args", [""])[-1]) == rl.get("prune_with_tracker::Pruner") and \
+                        roles.base(cvs[1].f.get("args", [""])[-1]) == rl.get("prune_with_tracker::Finalizer") and c.dominates(cvs[0].bb, cvs[1].bb) \
+                        and any(m.name == "prune_case" for m in roles.methods(F, "prune_with_tracker::Pruner", "prune_case")):
                     rep.ok("C08.order", "convert(Pruner with the tracker) → convert(Finalizer)", None)
                     # both conversions walk the program by pointer identity: a tracker that merges nodes with equal roots
                     # (MaxSharing) gives one set of type variables to a live node and to its twin in a never-executed branch,
@@ -351,7 +355,7 @@ def run(ctx, rep):
                     # the Pruner is built from the captured tracker
                     for b in c.rpo():
                         for s in c.blocks[b]["s"]:
-                            if s[0] == "=" and s[2].get("k") == "agg" and s[2].get("adt", "").endswith("prune_with_tracker::Pruner"):
+                            if s[0] == "=" and s[2].get("k") == "agg" and roles.base(s[2].get("adt", "")) == rl.get("prune_with_tracker::Pruner"):
                                 ops = dict(zip(s[2]["fields"], s[2]["ops"]))
                                 t = fm.subst_env(Tc.operand(ops["tracker"]), env)
                                 if vcc.param_roots(t, fm) == {3}:
@@ -362,11 +366,11 @@ def run(ctx, rep):
                     rep.violation("C08.order", "pipeline:converts", "expected convert with Pruner then convert with Finalizer, found <%s> then <%s>" % (ga0[-60:], ga1[-60:]), c.where())
     # both conversions carry the *already converted* disconnected branch over: what convert_disconnect returns derives
     # from its `right` parameter (the converted child), never from the original node (which is unpruned / untyped anew)
-    cds = [f for f in F.fns.values() if f.name == "convert_disconnect" and "prune_with_tracker::" in f.path]
+    cds = roles.methods(F, "prune_with_tracker::Pruner", "convert_disconnect") + roles.methods(F, "prune_with_tracker::Finalizer", "convert_disconnect")
     if len(cds) < 2:
         rep.anchor("C08.order", "convert_disconnect of prune_with_tracker's Pruner and Finalizer")
     for f in cds:
-        who = "Pruner" if "::Pruner" in f.path else "Finalizer"
+        who = "Pruner" if roles.role_of(F, f.impl_self) == "prune_with_tracker::Pruner" else "Finalizer"
         roots = vcc.param_roots(Terms(f).local(0), fm)
         if roots == {3}:
             rep.ok("C08.order", "%s::convert_disconnect passes the converted branch on" % who, None)
